@@ -180,6 +180,7 @@ type exec struct {
 	dir   string
 	file  string
 	cls   map[int]func() string
+	vfs   map[int]*config.ValidityFlag
 	persp map[int]*config.Perspective
 	tr    *tracer
 
@@ -389,6 +390,7 @@ func (e *exec) do(line string) string {
 			config.VerifReset("")
 		}
 		e.cls = map[int]func() string{}
+		e.vfs = map[int]*config.ValidityFlag{}
 		e.persp = map[int]*config.Perspective{}
 		return "ok"
 	case "reg":
@@ -568,6 +570,34 @@ func (e *exec) do(line string) string {
 			return "bad-op"
 		}
 		return e.cls[id]()
+	case "vfnew", "vfrefresh", "vfvalid":
+		// config.ValidityFlag (config/validity.go): new flags start invalid, Refresh takes the current global flag
+		if len(ws) != 2 {
+			return "bad-op"
+		}
+		id, err := strconv.Atoi(ws[1])
+		if err != nil {
+			return "bad-op"
+		}
+		switch ws[0] {
+		case "vfnew":
+			e.vfs[id] = config.NewValidityFlag()
+			return "ok"
+		case "vfrefresh":
+			if e.vfs[id] == nil {
+				return "bad-op"
+			}
+			e.vfs[id].Refresh()
+			return "ok"
+		default:
+			if e.vfs[id] == nil {
+				return "bad-op"
+			}
+			if e.vfs[id].IsValid() {
+				return "valid"
+			}
+			return "invalid"
+		}
 	case "uv":
 		if len(ws) != 2 {
 			return "bad-op"
